@@ -93,25 +93,30 @@ def lean_hygiene():
     return hits
 
 
+def property_files(prop):
+    """Properties/<prop>.lean plus companions Properties/<prop><Suffix>.lean (e.g. C04Fuel.lean)"""
+    d = LEAN / "AsyncVerif" / "Properties"
+    return sorted(p for p in d.glob(prop + "*.lean") if re.fullmatch(re.escape(prop) + r"[A-Za-z]*", p.stem))
+
+
 def property_theorems(prop):
-    """Fully qualified names of the theorems stated in Properties/<prop>.lean."""
-    path = LEAN / "AsyncVerif" / "Properties" / (prop + ".lean")
-    if not path.exists():
-        return []
-    body = _strip_comments(path.read_text())
-    ns, names = [], []
-    for line in body.split("\n"):
-        m = re.match(r"\s*namespace\s+(\S+)", line)
-        if m:
-            ns.append(m.group(1))
-            continue
-        m = re.match(r"\s*end\s+(\S+)", line)
-        if m and ns and ns[-1].split(".")[-1] == m.group(1).split(".")[-1]:
-            ns.pop()
-            continue
-        m = re.match(r"\s*(?:@\[[^\]]*\]\s*)?theorem\s+(%s\w*)" % prop, line)
-        if m:
-            names.append(".".join(ns + [m.group(1)]))
+    """Fully qualified names of the theorems stated in Properties/<prop>*.lean."""
+    names = []
+    for path in property_files(prop):
+        body = _strip_comments(path.read_text())
+        ns = []
+        for line in body.split("\n"):
+            m = re.match(r"\s*namespace\s+(\S+)", line)
+            if m:
+                ns.append(m.group(1))
+                continue
+            m = re.match(r"\s*end\s+(\S+)", line)
+            if m and ns and ns[-1].split(".")[-1] == m.group(1).split(".")[-1]:
+                ns.pop()
+                continue
+            m = re.match(r"\s*(?:@\[[^\]]*\]\s*)?theorem\s+(%s\w*)" % prop, line)
+            if m:
+                names.append(".".join(ns + [m.group(1)]))
     return names
 
 
@@ -130,7 +135,7 @@ def lean_check(prop, tier):
         if st.build_ok and st.theorems:
             audit = LEAN / (".audit_%s_%d.lean" % (prop, os.getpid()))
             audit.write_text(
-                "import AsyncVerif.Properties.%s\n" % prop
+                "".join("import AsyncVerif.Properties.%s\n" % f.stem for f in property_files(prop))
                 + "".join("#print axioms %s\n" % n for n in st.theorems)
             )
             try:
